@@ -1239,7 +1239,10 @@ class GroupBy:
         sq_sum = self._apply_gb_reduction("sum_squares", values=values, **kwargs)
         sum_sq = self.sum(values=values, **kwargs).to_numpy().astype(np.float64) ** 2
         count = self.count(values=values, **kwargs)
-        return (sq_sum - sum_sq / count) / (count - ddof)
+        var = (sq_sum - sum_sq / count) / (count - ddof)
+        # cancellation in the one-pass formula can leave a tiny negative number where the
+        # variance is (close to) zero: a variance is never negative
+        return var.clip(lower=0)
 
     @groupby_method(_GB_REDUCTION_DOCSTRING, full_name="standard deviation")
     def std(
